@@ -1,0 +1,157 @@
+//go:build verif
+
+package cmd
+
+import (
+	"context"
+	"log/slog"
+	"net/netip"
+	"net/url"
+	"time"
+
+	"github.com/AdguardTeam/AdGuardDNS/internal/agd"
+	"github.com/AdguardTeam/AdGuardDNS/internal/agdnet"
+	"github.com/AdguardTeam/AdGuardDNS/internal/agdservice"
+	"github.com/AdguardTeam/AdGuardDNS/internal/debugsvc"
+	"github.com/AdguardTeam/AdGuardDNS/internal/errcoll"
+	"github.com/AdguardTeam/AdGuardDNS/internal/metrics"
+	"github.com/AdguardTeam/AdGuardDNS/internal/profiledb"
+	"github.com/AdguardTeam/golibs/logutil/slogutil"
+	"github.com/AdguardTeam/golibs/netutil/urlutil"
+	"github.com/AdguardTeam/golibs/service"
+	"github.com/c2h5oh/datasize"
+	"github.com/prometheus/client_golang/prometheus"
+	"gopkg.in/yaml.v2"
+)
+
+// Verification hooks for property C14: the production wiring of the profile
+// database.  [VerifC14InitProfileDB] runs the unchanged builder methods
+// ([builder.setServerGroupProperties], [builder.initGRPCMetrics],
+// [builder.initProfileDB], hence [initProfDB], [profiledb.New],
+// [backendpb.NewProfileStorage] and the refresh worker) on a configuration
+// parsed from YAML and an environment given by the harness.
+
+// VerifC14Env is the part of the environment [builder.initProfileDB] reads.
+type VerifC14Env struct {
+	// ProfilesURL is PROFILES_URL.
+	ProfilesURL *url.URL
+
+	// ProfilesAPIKey is PROFILES_API_KEY.
+	ProfilesAPIKey string
+
+	// ProfilesCachePath is PROFILES_CACHE_PATH.
+	ProfilesCachePath string
+
+	// ProfilesMaxRespSize is PROFILES_MAX_RESP_SIZE.
+	ProfilesMaxRespSize datasize.ByteSize
+
+	// BindPrefixes are the bind data of the only server of the only server
+	// group: single-address prefixes become address binds, the others
+	// interface-listener prefixes.
+	BindPrefixes []netip.Prefix
+}
+
+// VerifC14Wired is what [builder.initProfileDB] has built.
+type VerifC14Wired struct {
+	// DB is the database handed to the DNS service.
+	DB *profiledb.Default
+
+	// Refresher is what the debug API refreshes under the profiledb ID.
+	Refresher agdservice.Refresher
+
+	// NewRefreshCtx is the context constructor the builder gives to the
+	// refresh worker of the database.
+	NewRefreshCtx func() (ctx context.Context, cancel context.CancelFunc)
+
+	// BackendTimeout is the parsed backend.timeout.
+	BackendTimeout time.Duration
+}
+
+// VerifC14ValidateBackend parses the configuration and runs the start-up
+// validation of its backend section only.
+func VerifC14ValidateBackend(confYAML []byte) (err error) {
+	c := &configuration{}
+	err = yaml.Unmarshal(confYAML, c)
+	if err != nil {
+		return err
+	}
+
+	return c.Backend.validate()
+}
+
+// VerifC14InitProfileDB parses confYAML (the backend and ratelimit sections are
+// read) and initializes the profile database the way [Main] does.
+func VerifC14InitProfileDB(
+	ctx context.Context,
+	confYAML []byte,
+	env *VerifC14Env,
+	l *slog.Logger,
+	errColl errcoll.Interface,
+) (w *VerifC14Wired, err error) {
+	c := &configuration{}
+	err = yaml.Unmarshal(confYAML, c)
+	if err != nil {
+		return nil, err
+	}
+
+	srv := &agd.Server{Name: "verif_c14"}
+	var bindData []*agd.ServerBindData
+	for _, p := range env.BindPrefixes {
+		if p.IsSingleIP() {
+			bindData = append(bindData, &agd.ServerBindData{
+				AddrPort: netip.AddrPortFrom(p.Addr(), 53),
+			})
+		} else {
+			bindData = append(bindData, &agd.ServerBindData{
+				PrefixAddr: &agdnet.PrefixNetAddr{Prefix: p, Net: "udp", Port: 53},
+			})
+		}
+	}
+	srv.SetBindData(bindData)
+
+	b := &builder{
+		baseLogger: l,
+		conf:       c,
+		debugRefrs: debugsvc.Refreshers{},
+		env: &environment{
+			ProfilesURL:         &urlutil.URL{URL: *env.ProfilesURL},
+			ProfilesAPIKey:      env.ProfilesAPIKey,
+			ProfilesCachePath:   env.ProfilesCachePath,
+			ProfilesMaxRespSize: env.ProfilesMaxRespSize,
+		},
+		errColl:        errColl,
+		logger:         l.With(slogutil.KeyPrefix, "builder"),
+		mtrcNamespace:  metrics.Namespace(),
+		promRegisterer: prometheus.NewRegistry(),
+		sigHdlr: service.NewSignalHandler(&service.SignalHandlerConfig{
+			Logger:          l,
+			ShutdownTimeout: shutdownTimeout,
+		}),
+		serverGroups: []*agd.ServerGroup{{
+			Name:            "verif_c14",
+			ProfilesEnabled: true,
+			Servers:         []*agd.Server{srv},
+		}},
+	}
+
+	b.setServerGroupProperties(ctx)
+
+	err = b.initGRPCMetrics(ctx)
+	if err != nil {
+		return nil, err
+	}
+
+	err = b.initProfileDB(ctx)
+	if err != nil {
+		return nil, err
+	}
+
+	timeout := c.Backend.Timeout.Duration
+
+	return &VerifC14Wired{
+		DB:             b.profileDB.(*profiledb.Default),
+		Refresher:      b.debugRefrs[debugIDProfileDB],
+		NewRefreshCtx:  newCtxWithTimeoutCons(timeout),
+		BackendTimeout: timeout,
+	}, nil
+}
